@@ -49,6 +49,7 @@ class C06(InterpProp):
         k = info['k']
         snap = set(info['cfg0'])
         last_exit = dict(gh.last_exit)
+        restored_any = False
         for m in r['step']['steps']:
             cur = set(snap)
             hist = [s for s in m['exited'] if oracles.is_hist(sc.state_for(s))]
@@ -76,3 +77,12 @@ class C06(InterpProp):
                 snap.discard(s)
             for s in m['entered']:
                 snap.add(s)
+            if hist and m['transition'] is None:
+                restored_any = True
+        if restored_any and not res.violations:
+            # "nested default entry continues below a restored state": when the macro step is over, nothing is left
+            # to be entered by default
+            lg = oracles.legal(sc, snap)
+            if lg is not True:
+                res.violations.append('step %d: after the restoration of a history state the macro step ends in an '
+                                      'unfinished configuration: %s' % (k, lg))
